@@ -19,3 +19,48 @@ package handshake
 //@   ensures result1 == nil ==> result0 != nil
 //@   ensures result1 != nil ==> result0 == nil
 //@   callassert aurora.ParseAddress checked-with-the-ack-fields-and-this-network: $networkID == s.networkID && $underlay == ack.Address.Underlay && $overlay == ack.Address.Overlay && $signature == ack.Address.Signature
+
+//@ # ---- C37: no message from the remote peer makes the handshake panic --------------------------
+//@ # A message read from the stream is arbitrary: every pointer field may be nil, every byte field
+//@ # may have any length.
+//@ extern func (github.com/gauss-project/aurorafs/pkg/p2p/protobuf.Reader).ReadMsgWithContext
+//@   assigns target(msg)
+//@ extern func (github.com/gauss-project/aurorafs/pkg/p2p/protobuf.Writer).WriteMsgWithContext
+//@   assigns nothing
+//@ extern func github.com/gauss-project/aurorafs/pkg/p2p/protobuf.NewWriterAndReader
+//@   assigns nothing
+//@ extern func github.com/gauss-project/aurorafs/pkg/aurora.NewAddress
+//@   ensures result1 == nil ==> result0 != nil && result0.Underlay != nil
+//@   assigns nothing
+//@ # (proved in pkg/aurora, C37: an accepted node mode has at least one byte)
+//@ extern func github.com/gauss-project/aurorafs/pkg/aurora.NewModelFromBytes
+//@   ensures result1 == nil ==> result0.Bv != nil && len(result0.Bv.b) >= 1
+//@   assigns nothing
+//@ extern func github.com/libp2p/go-libp2p-core/peer.AddrInfoFromP2pAddr
+//@   ensures result1 == nil ==> result0 != nil
+//@   assigns nothing
+//@ extern func github.com/multiformats/go-multiaddr.NewMultiaddrBytes
+//@   ensures result1 == nil ==> result0 != nil
+//@   assigns nothing
+//@ extern func github.com/multiformats/go-multiaddr.NewMultiaddr
+//@   ensures result1 == nil ==> result0 != nil
+//@   assigns nothing
+//@ extern func (github.com/multiformats/go-multiaddr.Multiaddr).MarshalBinary
+//@   assigns nothing
+//@ extern func (*Service).GetWelcomeMessage
+//@   assigns nothing
+//@ func buildFullMA
+//@   trusted
+//@   ensures result1 == nil ==> result0 != nil
+//@   assigns nothing
+
+//@ # the node's own service is well formed (local state, not under the peer's control)
+//@ spec func serviceOK(s *Service) bool = s != nil && s.signer != nil && s.advertisableAddresser != nil && s.logger != nil && s.nodeMode.Bv != nil && s.lightNodes != nil && s.metrics.SynRx != nil && s.metrics.SynRxFailed != nil && s.metrics.SynAckTx != nil && s.metrics.SynAckTxFailed != nil && s.metrics.AckRx != nil && s.metrics.AckRxFailed != nil
+
+//@ func (*Service).Handshake
+//@   property C37
+//@   requires serviceOK(s) && stream != nil && peerMultiaddr != nil
+
+//@ func (*Service).Handle
+//@   property C37
+//@   requires serviceOK(s) && stream != nil && remoteMultiaddr != nil
